@@ -45,9 +45,11 @@ DIMS = {
     "o_suppress": [False, True],
     "o_subproto": [None, ["chat"], ["chat", "v2.x"], ["Chat.V2", "MQTT"]],
     "o_cookie": [None, "k=v; k2=v2"],
-    "o_header": [None, ["X-A: 1", "X-B: two words"], {"X-A": "1", "X-N": None}, {"X-N": None}, {"User-Agent": "ua/1.0"}, {"X-Empty": ""}, {"X-A": "1", "X-Empty": "", "X-N": None}],
+    "o_header": [None, ["X-A: 1", "X-B: two words"], {"X-A": "1", "X-N": None}, {"X-N": None}, {"User-Agent": "ua/1.0"}, {"X-Empty": ""}, {"X-A": "1", "X-Empty": "", "X-N": None},
+                 # the same line more than once (a list is sent as it is), a tuple instead of a list
+                 ["X-Trace: on", "X-Trace: on"], ["Accept-Language: en", "X-Client: x", "Accept-Language: en"], ("X-T: 1", "X-T: 1", "X-U: 2")],
     # the URL is reached through a redirect from another URL (of the other or of the same scheme): the request reflects the URL it is sent to
-    "redirected": [None, None, None, "other-scheme", "same-scheme"],
+    "redirected": [None, None, None, "other-scheme", "same-scheme", "other-scheme-same-authority"],
     "o_connection": [None, "keep-alive, Upgrade"],
     # options that concern the transport, the TLS layer or the receive side: the request is the same with and without them
     "o_unrelated": [None, None, {"sslopt": {"server_hostname": "sni.other.test"}}, {"sslopt": {"check_hostname": False, "cert_reqs": 0}},
@@ -106,7 +108,7 @@ def one(res, W, c, keys_seen, fresh=False):
     if c["o_cookie"]:
         opts["cookie"] = c["o_cookie"]
     if c["o_header"] is not None:
-        opts["header"] = c["o_header"] if isinstance(c["o_header"], list) else dict(c["o_header"])
+        opts["header"] = list(c["o_header"]) if isinstance(c["o_header"], list) else c["o_header"] if isinstance(c["o_header"], tuple) else dict(c["o_header"])
     if c["o_connection"]:
         opts["connection"] = c["o_connection"]
     unrelated = c.get("o_unrelated")
@@ -120,14 +122,21 @@ def one(res, W, c, keys_seen, fresh=False):
     conns = []
     first_url = None
     if redirected:
-        other = {"ws": "wss", "wss": "ws"}[c["scheme"]] if redirected == "other-scheme" else c["scheme"]
+        other = {"ws": "wss", "wss": "ws"}[c["scheme"]] if redirected.startswith("other-scheme") else c["scheme"]
         first_url = f"{other}://start.test/old?from=1"
+        if redirected == "other-scheme-same-authority":
+            # the redirect changes nothing but the scheme (an explicit port, so that host and port stay the same), and the server offers to keep the connection
+            if c["port"] is None:
+                redirected = "other-scheme"
+            else:
+                first_url = f"{other}://{c['host']}:{c['port']}/old?from=1"
         res.count("requests_after_redirect:" + redirected)
 
     def on_conn(conn):
         conns.append(conn)
         if redirected and len(conns) == 1:
-            H.HandshakePeer(conn, response=lambda req: f"HTTP/1.1 302 Found\r\nLocation: {url}\r\n\r\n".encode())
+            ka = "Connection: keep-alive\r\nContent-Length: 0\r\n" if redirected == "other-scheme-same-authority" else ""
+            H.HandshakePeer(conn, response=lambda req: f"HTTP/1.1 302 Found\r\nLocation: {url}\r\n{ka}\r\n".encode())
             return
         if proxied:
             H.TunnelPeer(conn, serve)
@@ -159,6 +168,9 @@ def one(res, W, c, keys_seen, fresh=False):
         res.violation("connection-count", f"{url}: {len(conns)} transport connections for one connect()", case)
         return
     conn = conns[-1]
+    if bool(conn.tls) != (c["scheme"] == "wss") and not proxied:
+        res.violation("connection-count", f"{url} (reached {redirected or 'directly'}): the request went out {'over TLS' if conn.tls else 'in clear text'}", case)
+        return
     sent = bytes(conn.sent)
     if proxied:
         t = getattr(conn, "tunnel", None)
@@ -253,7 +265,7 @@ def one(res, W, c, keys_seen, fresh=False):
         bad("cookie-header", repr(ck))
     exp_custom = []
     h = c["o_header"]
-    if isinstance(h, list):
+    if isinstance(h, (list, tuple)):
         for line in h:
             k, v = line.split(":", 1)
             exp_custom.append((k, v.strip()))
